@@ -412,7 +412,9 @@ impl Property for C05 {
         } else {
             case_spec(case, &input)
         };
-        spec.max_events = 400_000;
+        // one event per call at a seam; a sink that takes one byte per call turns every output
+        // byte into an event, so the budget (a bound on runaway output) is raised with it
+        spec.max_events = if case.out.short.is_empty() && case.err.short.is_empty() { 400_000 } else { 4_000_000 };
         let r = ctx.exec(spec);
         let reads = r
             .obs
